@@ -584,6 +584,8 @@ impl Family for TypeMatrix {
         if notnull {
             f |= ColumnFlags::NOT_NULL_FLAG;
         }
+        // flags that say nothing about how a value is carried ride along, rotating with the case
+        f |= [ColumnFlags::empty(), ColumnFlags::ZEROFILL_FLAG, ColumnFlags::BINARY_FLAG | ColumnFlags::PART_KEY_FLAG, ColumnFlags::PRI_KEY_FLAG | ColumnFlags::AUTO_INCREMENT_FLAG | ColumnFlags::NUM_FLAG][((d[0] + d[1]) % 4) as usize];
         let cols = Arc::new(vec![col("pad", ColumnType::MYSQL_TYPE_TINY, ColumnFlags::empty()), col("c", ct, f), col("tail", ColumnType::MYSQL_TYPE_VAR_STRING, ColumnFlags::empty())]);
         let row = vec![Val::I8(0x11), v.clone(), Val::Str("tail".into())];
         st.nontrivial += 1;
